@@ -34,7 +34,8 @@ EDITS = {
     'D5-varprec-not-registered-when-indexed': [("            try:\n                parent.add_argument(varprec_index, VariablePrecision(self))", "            try:\n                parent.add_argument(varprec_index, VariableWidth(self))")],
     'D6-redundant-warn-raises': [("            if count != 1:\n                parent.warn(RedundantFlag, s, flag, flag)", "            if count != 1:\n                raise FlagError(s, flag)")],
     # ---- behaviour-preserving edits of the decision code
-    'P1-rename-locals': [("varwidth_index", "vw_index"), ("varprec_index", "vp_index")],
+    'P1-rename-locals': [(None, lambda t: re.sub(r"(?<![<'])\b(varwidth|varprec)_index\b", lambda m: m.group(1)[:4] + '_ix', t))],
+    'P3-rename-a-group-consistently': [("varwidth_index", "vw_index")],
     'P2-membership-string-reordered': [("            if conversion in '%n':", "            if conversion in 'n%':")],
 }
 
@@ -47,11 +48,14 @@ def run(name):
     path = os.path.join(SCRATCH, F)
     text = open(path, encoding='utf-8').read()
     for old, new in EDITS[name]:
+        if old is None:
+            text = new(text)
+            continue
         new = new.replace('\\\\', '\\')
         old = old.replace('\\n', '\n'); new = new.replace('\\n', '\n')
         if text.count(old) < 1:
             return {'name': name, 'error': f'edit does not apply: {old!r}'}
-        text = text.replace(old, new, 1 if not name.startswith('P1') else -1)
+        text = text.replace(old, new, 1 if not name.startswith('P3') else -1)
     open(path, 'w', encoding='utf-8').write(text)
     t0 = time.time()
     tests = sh('/venv/bin/python -m pytest -q -p no:cacheprovider -x tests/test_strformat_c.py 2>&1 | tail -1', cwd=SCRATCH).stdout.strip()
